@@ -1,3 +1,17 @@
+"""C15 -- workers are pinned to distinct PUs inside the process mask (affinity decoders).
+
+Units (see META for the trusted base):
+  decode.compact / .scatter / .balanced          proof: indices, same (core, pu) pair for mask and reported PU number, only PUs inside
+                                                 the process mask, oversubscription reported (loop contracts, symbolic victim worker)
+  decode.numa_balanced.pair / .local / .workers  the same obligations for decode_numabalanced_distribution, split over three units of the
+                                                 same lifted text (.workers needs CaDiCaL and ~5 min: thorough tier).  .pair FAILS on the
+                                                 pinned tree: defect D4 (missing `+ core_offset` in get_pu_number)
+  check_num_threads, pu_in_process_mask          function contracts
+  decode_distribution                            call-trace contract of the dispatcher
+  none.*                                         bind=none leaves workers unbound (init's `none` branch, get_pu_mask, lemma)
+  bounded.<decoder>.S<s>C<c0><c1>P<pattern>      BOUNDED stand-ins (distinctness / completeness) on concrete small machines
+Development: C15_DEV=1 skips native replays; specs/C15/muts.sh is the mutation log.
+"""
 import os
 import re
 from vx.lift import Lift, Sub, Call, Members, Guard, DropStmt, Rule, LiftError, match_close, split_args
@@ -199,10 +213,6 @@ NPC1 = "num_pus_cores.sum_known && num_pus_cores.total == num_thread_socket && !
 # sizes of the per-socket vectors; the victim core's inner vector has as many entries as its counter says
 PIB = ("pu_indexes.size == NCORES && num_pus_cores.size == NCORES && next_pu_index.size == NCORES && VV_WF(num_pus_cores)"
        " && (g_cv >= NCORES || pu_indexes.v_size == num_pus_cores.v_val)")
-NUMA_P2_OUTER = ("(num_core == 0 ? (!num_pus_cores.scan_valid && num_thread <= num_threads_socket.scan_prefix) : "
-                 "(%s && num_thread <= num_threads_socket.scan_prefix + num_pus_cores.scan_prefix + num_pus_cores.c_val))" % SCAN_AT("num_pus_cores", "num_core - 1"))
-NUMA_P2_INNER = ("((num_pu == 0 && %s) || (%s && num_pu <= num_pus_cores.c_val && num_thread <= num_threads_socket.scan_prefix + num_pus_cores.scan_prefix + num_pu))"
-                 % (NUMA_P2_OUTER, SCAN_AT("num_pus_cores", "num_core")))
 # -- P_BOUNDS is decided by two units: "local" (indices of the function's own vectors, error reporting) ...
 NUMA_LOOPS_LOCAL = {
     1: "__CPROVER_assigns(n, num_cores_socket)\n__CPROVER_loop_invariant(n <= num_sockets && %s)" % SZ3,
@@ -225,11 +235,12 @@ NUMA_LOOPS_LOCAL = {
 }
 # ... and "workers" (the worker index num_thread stays below num_threads: sums of the per-socket / per-core counters)
 WSZ = "num_pus->size == num_threads && affinities->size == num_threads"
-RANGES = ("num_threads <= VX_BIG && num_thread <= VX_BIG && num_threads_socket.scan_prefix <= VX_BIG && num_threads_socket.c_val <= VX_BIG && "
-          "num_pus_cores.scan_prefix <= VX_BIG && num_pus_cores.c_val <= VX_BIG && num_pus_cores.total <= VX_BIG")
+# redundant range facts (all derivable from the sums): they spare the SAT solver the no-wrap-around reasoning
+RANGES = "num_threads <= VX_BIG && num_thread <= VX_BIG && num_threads_socket.scan_prefix <= VX_BIG && num_threads_socket.c_val <= VX_BIG && num_pus_cores.total <= VX_BIG"
+RANGES_NPC = "num_pus_cores.scan_prefix <= VX_BIG && num_pus_cores.c_val <= VX_BIG"
 F12 = ("num_threads_socket.scan_prefix + num_threads_socket.c_val <= num_threads && "
        "num_threads_socket.scan_prefix + num_pus_cores.total <= num_threads")
-F3 = "num_threads_socket.scan_prefix + num_pus_cores.scan_prefix + num_pus_cores.c_val <= num_threads"
+F3 = RANGES_NPC + " && num_threads_socket.scan_prefix + num_pus_cores.scan_prefix + num_pus_cores.c_val <= num_threads"
 NUMA_W_COMMON = RANGES + " && " + F12 + " && %s && %s && num_pus_cores.sum_known && num_pus_cores.total <= num_threads_socket.c_val && VV_WF(num_pus_cores) && !vx_exc && %s" % (
     SCAN_AT(NTS, "n"), NTS_TOT, WSZ)
 NUMA_W_OUTER = ("(num_core == 0 ? (!num_pus_cores.scan_valid && num_thread <= num_threads_socket.scan_prefix) : "
@@ -327,6 +338,11 @@ NONE_UNITS = [
          funcs=[AD + ": affinity_data::init (the `none` branch)", AD_HPP + ": affinity_data::get_pu_num(num_thread)"], min_obligations=10),
     Unit("none.get_pu_mask", "none.c", defines=["U_GET_PU_MASK"], enforce="get_pu_mask", lifts=GPM_LIFTS,
          funcs=[AD + ": affinity_data::get_pu_mask", AD_HPP + ": affinity_data::get_pu_num(num_thread)"], min_obligations=10),
+    Unit("none.get_pu_num_default", "none.c", defines=["U_GET_PU_NUM_HC"], enforce="get_pu_num_hc",
+         lifts={"get_pu_num": GET_PU_NUM, "get_pu_num_hc": Lift(AD, r"std::size_t affinity_data::get_pu_num\(\s*std::size_t num_thread, std::size_t hardware_concurrency\) const",
+                                                              rules=[Members(["pu_offset_", "pu_step_"])])},
+         funcs=[AD + ": affinity_data::get_pu_num(num_thread, hardware_concurrency) [pu_offset_ == 0, pu_step_ == 1]"], min_obligations=5, timeout=300,
+         extra_flags=["--unsigned-overflow-check"]),
     Unit("none.lemma", "none.c", defines=["U_NONE_LEMMA"], kind="lemma", replace=["init_none_branch", "get_pu_mask"],
          lifts={"get_pu_num": GET_PU_NUM}, funcs=["lemma over the contracts of affinity_data::init (none branch) and affinity_data::get_pu_mask"],
          doc="bind=none: every worker gets the empty affinity mask"),
@@ -334,26 +350,30 @@ NONE_UNITS = [
 
 def numa_lifts(loops):
     return dict(HELPERS, body=Lift(PAO, r"void decode_numabalanced_distribution\(", rules=[ROUND] + DEC_RULES + LOCAL_DECLS +
-                                   locvec(NCS) + locvec(NPS, writes=None, pre_incs=1) + locvec(NTS) + locvec("next_pu_index") +
-                                   locvec("num_pus_cores", writes=None, incs=1) + PU_INDEXES, loops=loops))
+                                   locvec(NCS) + locvec(NPS, writes=None) + locvec(NTS) + locvec("next_pu_index") +
+                                   locvec("num_pus_cores", writes=None) + PU_INDEXES, loops=loops))
 
 
 UNITS = [
-    Unit("decode.numa_balanced.workers", "decoders.c", defines=["U_NUMA_WORKERS", "VX_NO_LOCAL_IDX_ASSERT"],
+    Unit("decode.numa_balanced.workers", "decoders.c", defines=["U_NUMA_WORKERS", "VX_NO_LOCAL_IDX_ASSERT", "VX_FEW_REACH"],
          enforce="decode_numabalanced_distribution", lifts=numa_lifts(NUMA_LOOPS_WORKERS),
-         funcs=[PAO + ": decode_numabalanced_distribution, check_num_threads, pu_in_process_mask"], min_obligations=40, timeout=300, no_replay=DEV, object_bits=12,
+         funcs=[PAO + ": decode_numabalanced_distribution, check_num_threads, pu_in_process_mask"], min_obligations=40, timeout=900, no_replay=True, object_bits=12,
+         tier="thorough",  # ~270-350 s: too slow for the quick tier (bounded.numa_balanced.* stand in for it there)
+         solver=["--sat-solver", "cadical"],  # MiniSat does not finish the sum inequalities; CaDiCaL does
          doc="affinities[num_thread] / num_pus[num_thread]: the worker index stays below num_threads"),
     Unit("decode.numa_balanced.local", "decoders.c", defines=["U_NUMA_BOUNDS", "VX_NO_OUT_IDX_ASSERT", "VX_NO_SUM", "NCORES=num_cores_socket.c_val"],
          enforce="decode_numabalanced_distribution", lifts=numa_lifts(NUMA_LOOPS_LOCAL),
-         funcs=[PAO + ": decode_numabalanced_distribution, check_num_threads, pu_in_process_mask"], min_obligations=40, timeout=300, no_replay=DEV, object_bits=12,
+         funcs=[PAO + ": decode_numabalanced_distribution, check_num_threads, pu_in_process_mask"], min_obligations=40, timeout=300, no_replay=True, object_bits=12,  # replay: the bounded re-run of 11 nested loops does not fit; bounded.numa_balanced.* reproduce natively
+        
          doc="every access to the function's local vectors in bounds, num_pus sized, oversubscription reported"),
     Unit("decode.numa_balanced.pair", "decoders.c", defines=["U_NUMA_PAIR", "VX_NO_IDX_ASSERT", "VX_NO_SUM"],
          enforce="decode_numabalanced_distribution", lifts=numa_lifts(NUMA_LOOPS_PAIR),
-         funcs=[PAO + ": decode_numabalanced_distribution, check_num_threads, pu_in_process_mask"], min_obligations=40, timeout=300, no_replay=DEV, object_bits=12,
+         funcs=[PAO + ": decode_numabalanced_distribution, check_num_threads, pu_in_process_mask"], min_obligations=40, timeout=300, no_replay=True, object_bits=12,  # replay: the bounded re-run of 11 nested loops does not fit; bounded.numa_balanced.* reproduce natively
+        
          doc="reported PU number and mask come from the same (core, pu) pair; only PUs inside the process mask are used"),
     Unit("decode.balanced", "decoders.c", defines=["U_BALANCED", "NCORES=num_cores"], enforce="decode_balanced_distribution",
          lifts=dict(HELPERS, body=Lift(PAO, r"void decode_balanced_distribution\(", rules=DEC_RULES + LOCAL_DECLS + locvec("next_pu_index") +
-                                       locvec("num_pus_cores", writes=None, incs=1) + PU_INDEXES, loops=BALANCED_LOOPS)),
+                                       locvec("num_pus_cores", writes=None) + PU_INDEXES, loops=BALANCED_LOOPS)),
          funcs=[PAO + ": decode_balanced_distribution, check_num_threads, pu_in_process_mask"], min_obligations=40, timeout=300, no_replay=DEV),
     Unit("decode.scatter", "decoders.c", defines=["U_SCATTER"], enforce="decode_scatter_distribution",
          lifts=dict(HELPERS, body=Lift(PAO, r"void decode_scatter_distribution\(", rules=DEC_RULES + LOCAL_DECLS + locvec("next_pu_index"),
@@ -381,17 +401,83 @@ def nocontract(lift_loops_count, locator, extra):
 B_HELP = {"pim": Lift(PAO, r"bool pu_in_process_mask\(", rules=SPELL + [TOPO]),
           "cnt": Lift(PAO, r"void check_num_threads\(", rules=[THROWS_IF] + SPELL + [TOPO])}
 BOUNDED = [
-    ("compact", "decode_compact_distribution", 3, [], 8),
-    ("scatter", "decode_scatter_distribution", 3, LOCAL_DECLS + locvec("next_pu_index"), 8),
-    ("balanced", "decode_balanced_distribution", 5, LOCAL_DECLS + locvec("next_pu_index") + locvec("num_pus_cores", writes=None, incs=1) + PU_INDEXES, 8),
-    ("numa_balanced", "decode_numabalanced_distribution", 11, LOCAL_DECLS + locvec(NCS) + locvec(NPS, writes=None, pre_incs=1) + locvec(NTS) +
-     locvec("next_pu_index") + locvec("num_pus_cores", writes=None, incs=1) + PU_INDEXES, 8),
+    ("compact", "decode_compact_distribution", 3, [], 7),
+    ("scatter", "decode_scatter_distribution", 3, LOCAL_DECLS + locvec("next_pu_index"), 7),
+    ("balanced", "decode_balanced_distribution", 5, LOCAL_DECLS + locvec("next_pu_index") + locvec("num_pus_cores", writes=None) + PU_INDEXES, 7),
+    ("numa_balanced", "decode_numabalanced_distribution", 11, LOCAL_DECLS + locvec(NCS) + locvec(NPS, writes=None) + locvec(NTS) +
+     locvec("next_pu_index") + locvec("num_pus_cores", writes=None) + PU_INDEXES, 7),
 ]
-for (bn, fn, nl, extra, unw) in BOUNDED:
-    UNITS.append(Unit("bounded." + bn, "bounded.c", defines=["DECODE=" + fn], kind="bounded", unwind=unw, timeout=600,
-                      lifts=dict(B_HELP, body=nocontract(nl, r"void %s\(" % fn, extra)), loop_contracts=False, no_replay=True,
-                      funcs=[PAO + ": " + fn + ", check_num_threads, pu_in_process_mask"],
-                      doc="BOUNDED: <= 2 sockets x <= 3 cores x <= 2 PUs, threads 1..#PUs+1, ec == throws, used_cores == 0, max_cores >= #cores: "
-                          "all workers assigned to exactly one PU inside the mask, pairwise distinct, reported PU == bound PU"))
+def shapes():
+    """(sockets, cores socket 0, cores socket 1, PU pattern): bit c of the pattern set <=> core c has 2 hardware threads"""
+    out = []
+    for c0 in (1, 2, 3):
+        for pat in range(1 << c0):
+            out.append((1, c0, 0, pat))
+    for c0 in (1, 2, 3):
+        for c1 in (1, 2, 3):
+            for pat in range(1 << (c0 + c1)):
+                out.append((2, c0, c1, pat))
+    return out
 
-META = {"trusted_base": [], "assumptions": [], "not_decided": []}
+
+def quick_shape(s, c0, c1, pat):
+    """the quick tier runs the largest and the most asymmetric machines; the thorough tier all 210"""
+    n = c0 + c1
+    full = (1 << n) - 1
+    s0 = (1 << c0) - 1                      # only socket 0 has SMT
+    alt = 0b010101 & full
+    if (s, c0, c1) not in ((1, 3, 0), (2, 3, 3), (2, 1, 3), (2, 3, 1)):
+        return False
+    return pat in (alt, full & ~alt, s0, full & ~s0)
+
+
+for (bn, fn, nl, extra, unw) in BOUNDED:
+    for (s, c0, c1, pat) in shapes():
+        UNITS.append(Unit("bounded.%s.S%dC%d%dP%02d" % (bn, s, c0, c1, pat), "bounded.c",
+                          defines=["DECODE=" + fn, "B_S=%d" % s, "B_C0=%d" % c0, "B_C1=%d" % c1, "B_P=%d" % pat],
+                          kind="bounded", unwind=unw, timeout=300, tier="quick" if quick_shape(s, c0, c1, pat) else "thorough",
+                          lifts=dict(B_HELP, body=nocontract(nl, r"void %s\(" % fn, extra)), loop_contracts=False,
+                          funcs=[PAO + ": " + fn + ", check_num_threads, pu_in_process_mask"],
+                          doc="BOUNDED: machine with %d socket(s), %d+%d cores, PUs per core pattern %s; every process mask, threads 1..#PUs+1, "
+                              "ec == throws, used_cores == 0, max_cores == #cores: all workers assigned to exactly one PU inside the mask, "
+                              "pairwise distinct, reported PU == bound PU" % (s, c0, c1, bin(pat))))
+
+META = {
+    "trusted_base": [
+        "specs/C15/c15.h topology stubs (topo_*): hwloc / threads::detail::topology is an UNINTERPRETED BUT FUNCTIONAL environment: every query "
+        "returns an arbitrary value, fixed for the symbolic victim pair (g_vc, g_vp) (get_pu_number, 'PU in process mask', get_number_of_core_pus); "
+        "a mask built by init_thread_affinity_mask(core, pu) is represented by the pair it was built from and is non-empty; bit_and / count are only "
+        "used on (process mask, single-PU mask) / the process mask (asserted)",
+        "specs/C15/c15.h struct vxvec / vxvec2 (local std::vector abstractions): size + victim element + most-recently-touched element + exact sum + "
+        "in-order scan; VX_ASSUME (3x): an element is <= the sum of all elements, prefix sum + next element <= the sum (arithmetic of non-negative "
+        "numbers), a vector holds fewer than SIZE_MAX elements.  Reads of other elements are arbitrary",
+        "specs/C15/c15.h affinities / num_pus: ONE symbolic victim worker g_k; other workers' elements are arbitrary at every read",
+        "specs/C15/c15.h vx_round_ratio: static_cast<size_t>(std::round(double(a) / double(b))) is NOT modelled (no floating point): the operands are "
+        "evaluated, the result is an arbitrary value <= 10^9 (VX_ASSUME); decode_numabalanced_distribution is verified for num_threads <= 10^9",
+        "specs/C15/c15.h vx_throws_if: PIKA_THROWS_IF throws iff &ec == &pika::throws (exception edge lowered to `if (vx_exc) return;`), else stores "
+        "the code in ec and continues",
+        "specs/C15/none.c bitmask_* / vx_pu_nums_at: no_affinity_ as ONE symbolic victim bit; pu_nums_[i] < hardware concurrency (VX_ASSUME: "
+        "get_pu_num(i, hc) ends in `% hc`)",
+        "specs/C15/c15b.h (bounded units only): concrete machine model mirroring topology.cpp's modulo wrap-around of out-of-range indices",
+        "CaDiCaL instead of MiniSat for decode.numa_balanced.workers (same CBMC, --sat-solver cadical)",
+    ],
+    "assumptions": [
+        "decoders are called with cleared masks (affinity_data::init resizes affinity_masks_ with mask_type{} before parse_affinity_options)",
+        "none.lemma: with --pika:bind the command line forbids --pika:pu-offset / --pika:pu-step (command_line_handling.cpp:378-385), so "
+        "pu_offset_ == 0, pu_step_ == 1; with num_threads <= hardware concurrency the cached PU number of worker k is then k (proved for "
+        "get_pu_num(i, hc) by none.get_pu_num_default; that init_cached_pu_nums stores exactly these values is read off the code, not lifted).  Without that, init's `none` branch sets bit get_pu_num(i) while get_pu_mask tests bit global_thread_num",
+        "bounded units: ec == pika::throws (what affinity_data::init passes), used_cores == 0 (what init_runtime.cpp passes), max_cores == #cores",
+        "decode_distribution: d is one of the four enumerators (parse_mappings produces nothing else)",
+    ],
+    "not_decided": [
+        "distinctness ('two workers never share a PU') and completeness ('all workers assigned') for unbounded machines: they need 'no second sweep "
+        "over the cores', i.e. sum over all (core, pu) of pu_in_process_mask >= num_threads -- a sum over an uninterpreted function that the victim "
+        "ghosts cannot express; decided only by the bounded.* stand-ins (<= 2 sockets x <= 3 cores x <= 2 PUs)",
+        "termination of the decoders (an empty effective mask with num_threads >= 1 and ec != throws loops forever; bounded units use ec == throws)",
+        "!use_process_mask with max_cores below the machine's core count (deliberate restriction): the sweep wraps around and PUs are shared",
+        "numa-balanced on >= 3 sockets: the per-socket shares round(T * p_n / P) can sum to less than T (e.g. 3 equal sockets, T == 1 or 4), leaving "
+        "workers unassigned -- outside the bounded family (<= 2 sockets), not decided by any unit",
+        "std::round / double arithmetic, hwloc, the real topology object, sched_setaffinity, resource-partitioner pool exclusivity, "
+        "--pika:process-mask parsing, affinity_data::init outside its `none` branch, get_pu_num(i, hc) for pu_offset/pu_step other than 0/1",
+    ],
+}
